@@ -5,24 +5,45 @@
 
 package variables
 
-// ---- the Container interface
+// ---- abstract view of a container: cdom[c] is the set of defined names, cval[c][k] the value of k
+//@ ghost cdom map[Container]set[string]
+//@ ghost cval map[Container]map[string]any
+// over(r, a, b): the view of r is the view of a overlaid with the view of b (b wins)
+//@ pred over(r Container, a Container, b Container) := forall k string :: (cdom[r][k] <==> (cdom[a][k] || cdom[b][k])) && (cdom[b][k] ==> cval[r][k] == cval[b][k]) && (!cdom[b][k] && cdom[a][k] ==> cval[r][k] == cval[a][k])
+// othersUnchanged(r): no container other than r changed its view
+//@ pred sameView(c Container) := cdom[c] == old(cdom[c]) && cval[c] == old(cval[c])
+
 //@ func Container.Merge
 //@   requires arg0 != nil
-//@   nomod
-//@   ensures result != nil
+//@   modifies cdom, cval
+//@   ensures result != nil && result != recv && result != arg0
+//@   ensures #view over(result, recv, arg0)
+//@   ensures #operands-untouched forall c Container :: c != result ==> cdom[c] == old(cdom[c]) && cval[c] == old(cval[c])
 //@ func Container.With
-//@   nomod
-//@   ensures result != nil
+//@   modifies cdom, cval
+//@   ensures result != nil && result != recv
+//@   ensures #view forall k string :: (cdom[result][k] <==> (cdom[recv][k] || k == arg0)) && (k == arg0 ==> cval[result][k] == arg1) && (k != arg0 && cdom[recv][k] ==> cval[result][k] == cval[recv][k])
+//@   ensures #operands-untouched forall c Container :: c != result ==> cdom[c] == old(cdom[c]) && cval[c] == old(cval[c])
 //@ func Container.Map
 //@   nomod
-//@   ensures result != nil
+//@   ensures result != nil && fresh(result)
+//@   ensures #view forall k string :: ((k in result) <==> cdom[recv][k]) && (cdom[recv][k] ==> result[k] == cval[recv][k])
 //@ func Container.Set
-//@   nomod
+//@   modifies cdom, cval
+//@   ensures #view forall k string :: (cdom[recv][k] <==> (old(cdom[recv][k]) || k == arg0)) && (k == arg0 ==> cval[recv][k] == arg1) && (k != arg0 ==> cval[recv][k] == old(cval[recv][k]))
+//@   ensures #others-untouched forall c Container :: c != recv ==> cdom[c] == old(cdom[c]) && cval[c] == old(cval[c])
 //@ func Container.Get
 //@   nomod
+//@   ensures cdom[recv][arg0] ==> result == cval[recv][arg0]
 //@ func Container.Has
 //@   nomod
+//@   ensures result <==> cdom[recv][arg0]
 
 //@ func FromMap
-//@   nomod
+//@   modifies cdom, cval
+//@   ensures result != nil
+//@   ensures #view forall k string :: (cdom[result][k] <==> (k in values)) && ((k in values) ==> cval[result][k] == boxstr(values[k]))
+//@   ensures #others-untouched forall c Container :: c != result ==> cdom[c] == old(cdom[c]) && cval[c] == old(cval[c])
+//@ func NewVariables
+//@   modifies cdom, cval
 //@   ensures result != nil
